@@ -84,6 +84,8 @@ class Findings:
         name_of = dict(CATS[self.cat]['table'])
         parts = []
         for variant, entries in self.concretize(model):
+            if not entries:
+                parts.append(name_of[variant])             # a pattern without file entries: an item without `|`
             for nm, lines in entries:
                 parts.append('%s|%s|%s' % (name_of[variant], hexs(nm), ','.join(map(str, lines))))
         return ';'.join(parts)
